@@ -82,6 +82,14 @@ Theorem C18_helpers_partial : forall l1 l2 : list gitem,
 Proof. exact helpers_partial. Qed.
 Print Assumptions C18_helpers_partial.
 
+(* the helper emission as the current source codes it (Gen_Sites.helpers_emission_sorted is read off the source by
+   the site scan): deterministic once it is sorted; until then only when at most one helper is needed *)
+Theorem C18_helpers_as_coded : forall l1 l2 : list gitem,
+  Permutation l1 l2 -> keys_unique g_key l1 -> (helpers_emission_sorted = true \/ length l1 <= 1) ->
+  compile_helpers_gen helpers_emission_sorted l1 = compile_helpers_gen helpers_emission_sorted l2.
+Proof. exact (helpers_as_coded helpers_emission_sorted). Qed.
+Print Assumptions C18_helpers_as_coded.
+
 (* the whole C body, under exactly the conditions the code does not enforce itself *)
 Theorem C18_compile_body_perm : forall e1 e2 : enums,
   Permutation (e_helpers e1) (e_helpers e2) /\ Permutation (e_mems e1) (e_mems e2) /\
